@@ -98,8 +98,8 @@ PROPS["C09"] = dict(
 )
 
 BYTE_TIER = "byte tier: PDU <= 8 bytes, buffer <= 24 bytes (thorough: 16 / 40), every byte value, positions via symbolic indices"
-EXT_SHAPES_Q = ["o2", "m3", "o2_m0", "m3_o0"]
-EXT_SHAPES_T = ["o4_o6", "o0", "o8", "m0", "m8_m2", "o0_o2_o4", "m3_o8_m0", "o2_o4_o6_o8", "m0_o0_m3_m2"]
+EXT_SHAPES_Q = ["o2", "m3", "o2_m0", "m3_o0", "o4_o6", "o8"]
+EXT_SHAPES_T = ["o8_o0", "o6_o4", "o0", "m0", "m8_m2", "o0_o2_o4", "m3_o8_m0", "o2_o4_o6_o8", "m0_o0_m3_m2"]
 EXT_BOUNDS = "chain shape fixed per harness (O(n)=optional with n data bytes, M(n)=mandatory with n data bytes), ids and data symbolic; PDU <= 5, buffer 0..=36 (thorough: 6 / 52), every label/protocol type/sender state"
 
 
@@ -379,7 +379,7 @@ PROPS["C12"] = dict(
     outside=["PDUs longer than 16 bytes in the differential member (covered by the induction argument)"],
 )
 
-C13_RX_Q = ["rx_complete_bc_o2", "rx_complete_6b_o0", "rx_complete_3b_m3", "rx_complete_ru_o4_o6", "rx_complete_bc_o2_mfinal", "rx_complete_bc_mfinal2",
+C13_RX_Q = ["rx_complete_bc_o8", "rx_complete_bc_o2", "rx_complete_6b_o0", "rx_complete_3b_m3", "rx_complete_ru_o4_o6", "rx_complete_bc_o2_mfinal", "rx_complete_bc_mfinal2",
             "rx_complete_bc_unknown_m3", "rx_complete_bc_unknown_second"]
 C13_RX_T = ["rx_complete_bc_m3_o8_m0", "rx_complete_bc_o2_o4_o6_o8"]
 # first fragments WITH extensions on the receiver side: ~17 min and ~25 GB each (measured) -> optional deepening, thorough tier only
@@ -560,3 +560,5 @@ PROPS["C15"]["harnesses"] = [h for h in PROPS["C15"]["harnesses"]]
 
 PROPS["C13"]["harnesses"] += [H("c13::rx_first_bc_o2_lean", bounds="first fragment, broadcast label, one optional 2-byte extension (symbolic id / data), payload 0..=2, any total length > payload, arbitrary tail up to 16 bytes; RefMem 1 slot",
                                 unwind=6, unwindset={"iterate_over_extension_header": 3, "header_extension9Extension": 3, "memcmp": 8}, stubs=["read_gse_header -> first/broadcast spec stub (C14 lemma)"], cost=300, timeout=1500, mem_gb=16)]
+
+PROPS["C13"]["harnesses"] += [H("c13::bundled_managers", bounds="all 65536 ids, both bundled managers", cost=1)]
